@@ -1,61 +1,467 @@
-(** Proofs about the SOCKS5 model. *)
+(** Proofs about the SOCKS5 model (replies collected across reads by socks5_fill). *)
 From Coq Require Import ZArith List Bool Lia.
 From Nice Require Import Stream.StreamBase Stream.StreamProofs Stream.TcpQueueModel Stream.PsslModel Stream.Socks5Model Stream.ProxyProofs.
 Import ListNotations.
 Local Open Scope Z_scope.
 
-Definition sinv (s : sst) : Prop := s_state s = SK_CONNECTED -> s_base s = true.
+Lemma w64s x : 0 <= x < W64 -> w64 x = x.
+Proof. intros; unfold w64; apply Z.mod_small; lia. Qed.
 
-Ltac walk := repeat first
-  [ apply flush_queue_strict | apply flush_queue_leaves | apply flush_queue_safe
-  | match goal with
-    | |- strict_only (if ?b then _ else _) => destruct b
-    | |- strict_only (match ?x with _ => _ end) => destruct x
-    | |- strict_only (let _ := _ in _) => cbv zeta
-    | |- leaves _ (if ?b then _ else _) => destruct b eqn:?
-    | |- leaves _ (match ?x with _ => _ end) => destruct x
-    | |- leaves _ (let _ := _ in _) => cbv zeta
-    end
-  | constructor | intro ].
+(* the read issued by socks5_fill when bytes are missing *)
+Definition rd (s : sst) (want : Z) (kd : sst -> prog sst) : prog sst :=
+  PRead false (w64 (want - s_rlen s)) (fill_k s want kd).
+Definition more (s : sst) (rb : list Z) (n : Z) : sst := upd s (s_state s) (s_queue s) rb (s_rlen s + n).
 
-Lemma socks_strict G s : s_state s <> SK_CONNECTED -> strict_only (socks_body G s).
+Lemma fill_rd s want kd kneg : want <= 22 -> s_rlen s < want -> s_base s = true -> fill s want kd kneg = rd s want kd.
 Proof.
-  intros N. unfold socks_body. destruct (Z.eqb_spec (s_state s) SK_CONNECTED); [contradiction|].
-  unfold read_into, at_, socks_error, send_connect. walk.
+  intros W L B. unfold fill, rd. destruct (Z.ltb_spec 22 want); [lia|]. destruct (Z.leb_spec want (s_rlen s)); [lia|].
+  rewrite B. reflexivity.
 Qed.
 
-Lemma socks_inv_step G s kb s1 r k e : sinv s -> exec (socks_body G s) kb = (Some (s1, r), k, e) -> 0 <= r -> sinv s1.
+Lemma fill_k_app s want kd a x : a <> [] -> x <> [] -> s_rlen s + lenZ a < want ->
+  fill_k s want kd (a ++ x) =
+  match mwrite (s_rbuf s) (s_rlen s) a with
+  | None => PFault
+  | Some rb => fill_k (more s rb (lenZ a)) want kd x
+  end.
 Proof.
-  intros I E R. revert R.
-  apply (leaves_exec (fun s1 r => 0 <= r -> sinv s1) (socks_body G s)) with (kb := kb) (k := k) (e := e); auto.
-  clear E. unfold socks_body.
-  destruct (Z.eqb_spec (s_state s) SK_CONNECTED) as [C|C].
-  - destruct (s_base s) eqn:B; [|constructor; intros; lia].
-    unfold passthrough. constructor. intros d. destruct (lenZ d =? 0); repeat constructor; intros _ _; exact B.
-  - unfold read_into, at_, socks_error, send_connect, set_state, sinv.
-    walk; simpl; try lia; try discriminate; auto.
+  intros NA NX SH. pose proof (lenZ_pos a NA) as La. pose proof (lenZ_pos x NX) as Lx.
+  unfold fill_k at 1. rewrite lenZ_app. destruct (Z.eqb_spec (lenZ a + lenZ x) 0); [lia|].
+  rewrite mwrite_app. destruct (mwrite (s_rbuf s) (s_rlen s) a) as [rb|]; [|reflexivity].
+  unfold fill_k, more, upd. cbn [s_rbuf s_rlen s_state s_queue s_base s_user s_pass s_addr].
+  destruct (Z.eqb_spec (lenZ x) 0); [lia|].
+  destruct (mwrite rb (s_rlen s + lenZ a) x); [|reflexivity].
+  replace (s_rlen s + (lenZ a + lenZ x)) with (s_rlen s + lenZ a + lenZ x) by lia. reflexivity.
 Qed.
 
-Lemma socks_resume G : resume_ok (socks_body G) vis_str sinv.
+(** a fill read that came up short resumes *)
+Lemma rd_short s want kd a b : 0 <= s_rlen s -> want <= 22 -> s_rlen s + lenZ a < want -> b <> [] ->
+  exists o1 e1, exec (rd s want kd) a = (o1, [], e1) /\
+    exists o2 k2 e2, exec (rd s want kd) (a ++ b) = (o2, k2, e2) /\
+      match o1 with
+      | None => o2 = None /\ vis vis_str e2 = vis vis_str e1
+      | Some (s1, r1) => r1 = 0 /\ (s1 = s \/ exists rb, s1 = more s rb (lenZ a)) /\ s_rlen s1 = s_rlen s + lenZ a /\
+                         (forall i, 0 <= i < s_rlen s -> mread (s_rbuf s1) i = mread (s_rbuf s) i) /\
+                         (lenZ (s_rbuf s) = 22 -> lenZ (s_rbuf s1) = 22) /\
+                         exists e2', exec (rd s1 want kd) b = (o2, k2, e2') /\
+                                     vis vis_str (e1 ++ e2') = vis vis_str e2 /\ lenZ k2 < lenZ b
+      end.
 Proof.
-  intros s a b o1 e1 I NA NB E F C.
-  destruct (Z.eq_dec (s_state s) SK_CONNECTED) as [H|H].
-  - left. apply passthrough_transparent. unfold socks_body. rewrite H. simpl. rewrite (I H). reflexivity.
-  - exfalso. pose proof (strict_clean_full _ (socks_strict G s H) _ _ _ _ E C). congruence.
+  intros L0 W SH NB. pose proof (lenZ_nonneg a) as La. pose proof (lenZ_pos b NB) as Lb.
+  unfold rd. rewrite !exec_read. rewrite w64s by (unfold W64; lia).
+  set (req := want - s_rlen s).
+  rewrite (takeZ_all req a) by (unfold req; lia). rewrite (dropZ_all req a) by (unfold req; lia).
+  rewrite (takeZ_app_r req a b) by (unfold req; lia). rewrite (dropZ_app_r req a b) by (unfold req; lia).
+  set (x := takeZ (req - lenZ a) b). set (rest := dropZ (req - lenZ a) b).
+  assert (Lx : 1 <= lenZ x) by (unfold x, req; rewrite lenZ_takeZ; lia).
+  assert (NX : x <> []) by (intros X; rewrite X, lenZ_nil0 in Lx; lia).
+  assert (Lrest : lenZ rest < lenZ b) by (unfold rest, req; rewrite lenZ_dropZ; lia).
+  destruct a as [|y a'].
+  - (* nothing obtained: the call returns 0 and nothing changed *)
+    simpl app. unfold fill_k at 1. rewrite lenZ_nil0. change (0 =? 0) with true. cbv iota. simpl exec.
+    eexists _, _. split; [reflexivity|].
+    destruct (exec (fill_k s want kd x) rest) as [[o2 k2] e2] eqn:E2.
+    exists o2, k2, (Rd false req (lenZ x) :: e2). split; [reflexivity|].
+    split; [reflexivity|]. split; [left; reflexivity|]. split; [change (lenZ []) with 0; lia|].
+    split; [auto|]. split; [auto|].
+    rewrite w64s by (unfold W64; lia). fold req.
+    assert (X0 : req - lenZ [] = req) by (rewrite lenZ_nil0; lia).
+    unfold x, rest in *. rewrite X0 in *. rewrite E2.
+    eexists. split; [reflexivity|]. split; [reflexivity|]. pose proof (exec_suffix _ _ _ _ _ E2). lia.
+  - assert (NA : y :: a' <> []) by discriminate.
+    rewrite fill_k_app by auto.
+    unfold fill_k at 1. destruct (Z.eqb_spec (lenZ (y :: a')) 0); [lz; pose proof (lenZ_nonneg a'); lia|].
+    destruct (mwrite (s_rbuf s) (s_rlen s) (y :: a')) as [rb|] eqn:MW.
+    + cbn [s_rlen upd]. destruct (Z.leb_spec want (s_rlen s + lenZ (y :: a'))); [lia|]. simpl exec.
+      eexists _, _. split; [reflexivity|].
+      destruct (exec (fill_k (more s rb (lenZ (y :: a'))) want kd x) rest) as [[o2 k2] e2] eqn:E2.
+      exists o2, k2, (Rd false req (lenZ ((y :: a') ++ x)) :: e2). split; [reflexivity|].
+      split; [reflexivity|]. split; [right; exists rb; reflexivity|]. split; [reflexivity|].
+      split.
+      { intros i Hi. cbn [s_rbuf upd]. destruct (mwrite_inv _ _ _ _ MW).
+        rewrite (mread_mwrite _ _ _ _ i MW) by lia.
+        destruct (Z.leb_spec (s_rlen s) i); [lia|]. reflexivity. }
+      split. { intros LB. cbn [s_rbuf upd]. rewrite (mwrite_len _ _ _ _ MW). exact LB. }
+      change (upd s (s_state s) (s_queue s) rb (s_rlen s + lenZ (y :: a'))) with (more s rb (lenZ (y :: a'))).
+      change (s_rlen (more s rb (lenZ (y :: a')))) with (s_rlen s + lenZ (y :: a')).
+      rewrite w64s by (unfold W64; lia).
+      replace (want - (s_rlen s + lenZ (y :: a'))) with (req - lenZ (y :: a')) by (unfold req; lia).
+      fold x. fold rest. rewrite E2.
+      eexists. split; [reflexivity|]. split; [reflexivity|]. pose proof (exec_suffix _ _ _ _ _ E2). lia.
+    + simpl exec. eexists _, _. split; [reflexivity|]. eexists None, rest, _. split; [reflexivity|]. split; reflexivity.
 Qed.
 
-Theorem socks_seg_independent_except G s cs : sinv s ->
-  clean (snd (run (socks_body G) (alive s) cs)) = true ->
-  weq (fst (run (socks_body G) (alive s) cs)) (fst (feed (socks_body G) (alive s) (concat cs))) /\
-  vis vis_str (snd (run (socks_body G) (alive s) cs)) = vis vis_str (snd (feed (socks_body G) (alive s) (concat cs))).
+(** a fill read that obtained everything it asked for, followed by read-free code, contains no short read *)
+Lemma rd_full_readfree s want kd a o k e : 0 <= s_rlen s -> want <= 22 -> s_rlen s < want ->
+  (forall s', readfree (kd s')) -> want - s_rlen s <= lenZ a ->
+  exec (rd s want kd) a = (o, k, e) -> all_full e = true.
 Proof.
-  intros I C.
-  exact (run_seg_independent (socks_body G) vis_str sinv (socks_inv_step G) (socks_resume G) cs (alive s) I C).
+  intros L0 W LT RF FU E. unfold rd in E. rewrite exec_read in E. rewrite w64s in E by (unfold W64; lia).
+  destruct (exec (fill_k s want kd (takeZ (want - s_rlen s) a)) (dropZ (want - s_rlen s) a)) as [[o' k'] e'] eqn:E'.
+  inversion E; subst. simpl. rewrite lenZ_takeZ.
+  destruct (Z.leb_spec (want - s_rlen s) (Z.max 0 (Z.min (want - s_rlen s) (lenZ a)))); [|lia]. simpl.
+  assert (R : readfree (fill_k s want kd (takeZ (want - s_rlen s) a))).
+  { unfold fill_k. destruct (_ =? 0); [constructor|]. destruct (mwrite _ _ _); [|constructor].
+    destruct (_ <=? _); [apply RF | constructor]. }
+  exact (readfree_full _ R _ _ _ _ E').
 Qed.
 
-Theorem socks_tunnel_transparent G s cs : s_state s = SK_CONNECTED -> s_base s = true ->
-  fst (run (socks_body G) (alive s) cs) = alive s /\
-  vis vis_str (snd (run (socks_body G) (alive s) cs)) = map OByte (concat cs).
+Lemma resume_via_rd s want kd a b o1 e1 : 0 <= s_rlen s -> want <= 22 -> s_rlen s < want -> b <> [] ->
+  (forall s', readfree (kd s')) ->
+  exec (rd s want kd) a = (o1, [], e1) -> all_full e1 = false ->
+  (forall s1, s_rlen s1 = s_rlen s + lenZ a -> (s1 = s \/ exists rb, s1 = more s rb (lenZ a)) ->
+     (forall i, 0 <= i < s_rlen s -> mread (s_rbuf s1) i = mread (s_rbuf s) i) -> socks_body s1 = rd s1 want kd) ->
+  exists o2 k2 e2, exec (rd s want kd) (a ++ b) = (o2, k2, e2) /\
+    match o1 with
+    | None => o2 = None /\ vis vis_str e2 = vis vis_str e1
+    | Some (s1, r1) => 0 <= r1 /\ exists e2', exec (socks_body s1) b = (o2, k2, e2') /\
+                       vis vis_str (e1 ++ e2') = vis vis_str e2 /\ lenZ k2 < lenZ b
+    end.
+Proof.
+  intros L0 W LT NB RF E F BODY.
+  assert (SH : s_rlen s + lenZ a < want).
+  { destruct (Z.lt_ge_cases (s_rlen s + lenZ a) want); auto. exfalso.
+    rewrite (rd_full_readfree s want kd a _ _ _ L0 W LT RF ltac:(lia) E) in F. discriminate. }
+  destruct (rd_short s want kd a b L0 W SH NB) as (o1' & e1' & E1 & o2 & k2 & e2 & E2 & M).
+  rewrite E in E1. inversion E1; subst o1' e1'. clear E1.
+  exists o2, k2, e2. split; [exact E2|].
+  destruct o1 as [[s1 r1]|]; [|exact M].
+  destruct M as (R0 & SS & RL & MR & _ & e2' & E3 & V & LK).
+  split; [lia|]. exists e2'. rewrite (BODY s1 RL SS MR). auto.
+Qed.
+
+(** ** invariant and shape of the body in each state *)
+Definition head_want (rb : list Z) : option Z :=
+  match mread rb 0, mread rb 1, mread rb 2, mread rb 3 with
+  | Some a, Some b, Some c, Some d => head_class a b c d
+  | _, _, _, _ => None
+  end.
+Lemma head_class_cases a b c d w : head_class a b c d = Some w -> w = 10 \/ w = 22.
+Proof.
+  unfold head_class. destruct (a =? 5); [|discriminate]. destruct (b =? 0); [|discriminate]. destruct (c =? 0); [|discriminate].
+  destruct (d =? 1); [intros E; inversion E; auto|]. destruct (d =? 4); [intros E; inversion E; auto | discriminate].
+Qed.
+Lemma head_want_cases rb w : head_want rb = Some w -> w = 10 \/ w = 22.
+Proof.
+  unfold head_want. destruct (mread rb 0); [|discriminate]. destruct (mread rb 1); [|discriminate].
+  destruct (mread rb 2); [|discriminate]. destruct (mread rb 3); [|discriminate]. apply head_class_cases.
+Qed.
+
+(* the base socket is only ever dropped together with the move to the error state *)
+Definition sinv (s : sst) : Prop :=
+  lenZ (s_rbuf s) = 22 /\ 0 <= s_rlen s /\ (s_base s = true \/ s_state s = SK_ERROR) /\
+  (s_state s = SK_INIT \/ s_state s = SK_AUTH -> s_rlen s < 2) /\
+  (s_state s = SK_CONNECT -> s_rlen s < 4 \/ exists w, head_want (s_rbuf s) = Some w /\ 4 <= s_rlen s < w).
+
+Lemma body_init s : s_state s = SK_INIT -> s_base s = true -> s_rlen s < 2 -> socks_body s = rd s 2 socks_init_done.
+Proof. intros S B L. unfold socks_body. rewrite S. simpl. apply fill_rd; auto; lia. Qed.
+Lemma body_auth s : s_state s = SK_AUTH -> s_base s = true -> s_rlen s < 2 -> socks_body s = rd s 2 socks_auth_done.
+Proof. intros S B L. unfold socks_body. rewrite S. simpl. apply fill_rd; auto; lia. Qed.
+Lemma body_head s : s_state s = SK_CONNECT -> s_base s = true -> s_rlen s < 4 -> socks_body s = rd s 4 socks_head_done.
+Proof. intros S B L. unfold socks_body. rewrite S. simpl. apply fill_rd; auto; lia. Qed.
+Lemma head_done_tail s w : head_want (s_rbuf s) = Some w -> s_base s = true -> s_rlen s < w ->
+  socks_head_done s = rd s w socks_tail_done.
+Proof.
+  intros H B L. unfold socks_head_done, at_. unfold head_want in H.
+  destruct (mread (s_rbuf s) 0); [|discriminate]. destruct (mread (s_rbuf s) 1); [|discriminate].
+  destruct (mread (s_rbuf s) 2); [|discriminate]. destruct (mread (s_rbuf s) 3); [|discriminate].
+  rewrite H. apply fill_rd; auto. destruct (head_class_cases _ _ _ _ _ H); lia.
+Qed.
+Lemma body_tail s w : s_state s = SK_CONNECT -> s_base s = true -> head_want (s_rbuf s) = Some w -> 4 <= s_rlen s < w ->
+  socks_body s = rd s w socks_tail_done.
+Proof.
+  intros S B H L. unfold socks_body. rewrite S. simpl. unfold fill.
+  change (22 <? 4) with false. cbv iota. destruct (Z.leb_spec 4 (s_rlen s)); [|lia].
+  apply head_done_tail; auto; lia.
+Qed.
+
+Lemma rf_error s : readfree (socks_error s).
+Proof. constructor. Qed.
+Lemma rf_connect s : readfree (send_connect s).
+Proof. repeat constructor. Qed.
+Lemma rf_init_done s : readfree (socks_init_done s).
+Proof.
+  unfold socks_init_done, at_. cbv zeta. destruct (mread _ 0); [|constructor]. destruct (mread _ 1); [|constructor].
+  destruct (_ =? 5); [|apply rf_error]. destruct (_ =? 2).
+  - destruct (has_auth _); [|apply rf_error]. destruct (255 <? _); [apply rf_error|]. destruct (255 <? _); [apply rf_error|].
+    repeat constructor.
+  - destruct (_ =? 0); [apply rf_connect | apply rf_error].
+Qed.
+Lemma rf_auth_done s : readfree (socks_auth_done s).
+Proof.
+  unfold socks_auth_done, at_. cbv zeta. destruct (mread _ 0); [|constructor]. destruct (mread _ 1); [|constructor].
+  destruct (_ && _); [apply rf_connect | apply rf_error].
+Qed.
+Lemma rf_tail_done s : readfree (socks_tail_done s).
+Proof. unfold socks_tail_done. apply readfree_flush. constructor. Qed.
+
+Lemma head_want_more s1 s : (forall i, 0 <= i < 4 -> mread (s_rbuf s1) i = mread (s_rbuf s) i) ->
+  head_want (s_rbuf s1) = head_want (s_rbuf s).
+Proof. intros H. unfold head_want. rewrite !H by lia. reflexivity. Qed.
+
+Lemma fill_nobase s want kd kneg : s_base s = false -> readfree kneg -> readfree (kd s) -> readfree (fill s want kd kneg).
+Proof.
+  intros B R1 R2. unfold fill. destruct (22 <? want); [constructor|]. destruct (want <=? s_rlen s); auto. rewrite B. auto.
+Qed.
+Lemma head_done_nobase s : s_base s = false -> readfree (socks_head_done s).
+Proof.
+  intros B. unfold socks_head_done, at_. destruct (mread _ 0); [|constructor]. destruct (mread _ 1); [|constructor].
+  destruct (mread _ 2); [|constructor]. destruct (mread _ 3); [|constructor].
+  destruct (head_class _ _ _ _); [|apply rf_error]. apply fill_nobase; auto using rf_error, rf_tail_done.
+Qed.
+Lemma body_nobase s : s_base s = false -> readfree (socks_body s).
+Proof.
+  intros B. unfold socks_body. cbv zeta. destruct (_ =? SK_CONNECTED); [rewrite B; constructor|].
+  destruct (_ =? SK_INIT); [apply fill_nobase; auto using rf_init_done; constructor|].
+  destruct (_ =? SK_AUTH); [apply fill_nobase; auto using rf_auth_done; constructor|].
+  destruct (_ =? SK_CONNECT); [apply fill_nobase; auto using head_done_nobase; constructor|].
+  apply rf_error.
+Qed.
+
+Lemma same_ctl s s1 n : (s1 = s \/ exists rb, s1 = more s rb n) -> s_state s1 = s_state s /\ s_base s1 = s_base s.
+Proof. intros [->|[rb ->]]; auto. Qed.
+
+Lemma socks_resume : resume_ok socks_body vis_str sinv.
+Proof.
+  intros s a b o1 e1 (LB & L0 & CB & IA & CT) NA NB E F _. pose proof (lenZ_nonneg a) as La.
+  destruct (Z.eq_dec (s_state s) SK_CONNECTED) as [SC|SC].
+  { left. apply passthrough_transparent. unfold socks_body. rewrite SC. simpl.
+    destruct CB as [->|X]; [reflexivity | rewrite SC in X; discriminate X]. }
+  right.
+  destruct (s_base s) eqn:B.
+  2:{ exfalso. rewrite (readfree_full _ (body_nobase s B) _ _ _ _ E) in F. discriminate. }
+  destruct (Z.eq_dec (s_state s) SK_INIT) as [S0|S0].
+  { specialize (IA (or_introl S0)). rewrite body_init in * by auto.
+    apply (resume_via_rd s 2 socks_init_done a b o1 e1 L0 ltac:(lia) IA NB rf_init_done E F).
+    intros s1 RL SS _. destruct (same_ctl _ _ _ SS) as [X Y]. apply body_init; try congruence.
+    destruct (Z.lt_ge_cases (s_rlen s + lenZ a) 2); [lia|]. exfalso.
+    rewrite (rd_full_readfree s 2 _ a _ _ _ L0 ltac:(lia) IA rf_init_done ltac:(lia) E) in F. discriminate. }
+  destruct (Z.eq_dec (s_state s) SK_AUTH) as [S1|S1].
+  { specialize (IA (or_intror S1)). rewrite body_auth in * by auto.
+    apply (resume_via_rd s 2 socks_auth_done a b o1 e1 L0 ltac:(lia) IA NB rf_auth_done E F).
+    intros s1 RL SS _. destruct (same_ctl _ _ _ SS) as [X Y]. apply body_auth; try congruence.
+    destruct (Z.lt_ge_cases (s_rlen s + lenZ a) 2); [lia|]. exfalso.
+    rewrite (rd_full_readfree s 2 _ a _ _ _ L0 ltac:(lia) IA rf_auth_done ltac:(lia) E) in F. discriminate. }
+  destruct (Z.eq_dec (s_state s) SK_CONNECT) as [S2|S2].
+  2:{ exfalso. unfold socks_body in E. destruct (Z.eqb_spec (s_state s) SK_CONNECTED); [contradiction|].
+      destruct (Z.eqb_spec (s_state s) SK_INIT); [contradiction|]. destruct (Z.eqb_spec (s_state s) SK_AUTH); [contradiction|].
+      destruct (Z.eqb_spec (s_state s) SK_CONNECT); [contradiction|]. simpl in E. inversion E; subst. contradiction. }
+  destruct (CT S2) as [L4|(w & HW & LW)].
+  2:{ (* the bound address is being collected *)
+      destruct (head_want_cases _ _ HW) as [W|W];
+      (rewrite (body_tail s w S2 B HW LW) in *;
+       apply (resume_via_rd s w socks_tail_done a b o1 e1 L0 ltac:(lia) ltac:(lia) NB rf_tail_done E F);
+       intros s1 RL SS MR; destruct (same_ctl _ _ _ SS) as [X Y]; apply body_tail; try congruence;
+       [ rewrite <- HW; apply head_want_more; intros i Hi; apply MR; lia
+       | destruct (Z.lt_ge_cases (s_rlen s + lenZ a) w); [lia|]; exfalso;
+         rewrite (rd_full_readfree s w _ a _ _ _ L0 ltac:(lia) ltac:(lia) rf_tail_done ltac:(lia) E) in F; discriminate ]). }
+  (* the 4-byte head is being collected *)
+  rewrite body_head in * by auto.
+  destruct (Z.lt_ge_cases (s_rlen s + lenZ a) 4) as [SH|FU].
+  { (* ... and is still incomplete *)
+    destruct (rd_short s 4 socks_head_done a b L0 ltac:(lia) SH NB) as (o1' & e1' & E1 & o2 & k2 & e2 & E2 & M).
+    rewrite E in E1. inversion E1; subst o1' e1'. exists o2, k2, e2. split; [exact E2|].
+    destruct o1 as [[s1 r1]|]; [|exact M].
+    destruct M as (R0 & SS & RL & MR & _ & e2' & E3 & V & LK).
+    split; [lia|]. exists e2'. destruct (same_ctl _ _ _ SS) as [X Y].
+    rewrite (body_head s1) by (try congruence; lia). auto. }
+  (* the head is complete with this read; the short read is the one for the bound address *)
+  unfold rd in E |- *. rewrite exec_read in *. rewrite w64s in * by (unfold W64; lia).
+  set (req := 4 - s_rlen s) in *.
+  rewrite (takeZ_app_l req a b) by (unfold req; lia). rewrite (dropZ_app_l req a b) by (unfold req; lia).
+  set (d := takeZ req a) in *. set (a' := dropZ req a) in *.
+  assert (Ld : lenZ d = req) by (unfold d, req; rewrite lenZ_takeZ; lia).
+  pose proof (lenZ_nonneg a') as La'.
+  destruct (exec (fill_k s 4 socks_head_done d) a') as [[o' k'] e'] eqn:E'.
+  inversion E; subst o' k' e1. clear E.
+  assert (F' : all_full e' = false).
+  { simpl in F. rewrite Ld in F. rewrite Z.leb_refl in F. exact F. }
+  unfold fill_k in E' |- *. destruct (Z.eqb_spec (lenZ d) 0); [unfold req in *; lia|].
+  destruct (mwrite (s_rbuf s) (s_rlen s) d) as [rb|] eqn:MW.
+  2:{ simpl in E'. inversion E'; subst. discriminate. }
+  cbn [s_rlen upd] in *. destruct (Z.leb_spec 4 (s_rlen s + lenZ d)); [|unfold req in *; lia].
+  set (s' := upd s (s_state s) (s_queue s) rb (s_rlen s + lenZ d)) in *.
+  assert (RL' : s_rlen s' = 4) by (unfold s'; cbn [s_rlen upd]; unfold req in Ld; lia).
+  destruct (head_want (s_rbuf s')) as [w|] eqn:HW.
+  2:{ (* refused or malformed: no further read, so no short read at all *)
+      exfalso. assert (RF : readfree (socks_head_done s')).
+      { unfold socks_head_done, at_. unfold head_want in HW.
+        destruct (mread _ 0); [|constructor]. destruct (mread _ 1); [|constructor].
+        destruct (mread _ 2); [|constructor]. destruct (mread _ 3); [|constructor]. rewrite HW. apply rf_error. }
+      rewrite (readfree_full _ RF _ _ _ _ E') in F'. discriminate. }
+  assert (B' : s_base s' = true) by exact B.
+  destruct (head_want_cases _ _ HW) as [W|W];
+  (rewrite (head_done_tail s' w HW B' ltac:(lia)) in *;
+   destruct (resume_via_rd s' w socks_tail_done a' b o1 e' ltac:(lia) ltac:(lia) ltac:(lia) NB rf_tail_done E' F')
+     as (o2 & k2 & e2 & E2 & M);
+   [ intros s1 RL SS MR; destruct (same_ctl _ _ _ SS) as [X Y]; apply body_tail;
+     [ rewrite X; exact S2 | rewrite Y; exact B
+     | rewrite <- HW; apply head_want_more; intros i Hi; apply MR; lia
+     | destruct (Z.lt_ge_cases (s_rlen s' + lenZ a') w); [lia|]; exfalso;
+       rewrite (rd_full_readfree s' w _ a' _ _ _ ltac:(lia) ltac:(lia) ltac:(lia) rf_tail_done ltac:(lia) E') in F'; discriminate ]
+   | rewrite E2; exists o2, k2, (Rd false req (lenZ d) :: e2); split; [reflexivity|];
+     destruct o1 as [[s1 r1]|]; [|destruct M as [-> V]; split; auto];
+     destruct M as (R0 & e2' & E3 & V & LK); split; auto; exists e2'; split; [exact E3|]; split; auto ]).
+Qed.
+
+(** ** the invariant is preserved *)
+Definition sP (s1 : sst) (r : Z) : Prop := 0 <= r -> sinv s1.
+
+Lemma lv_fill_k s want kd : lenZ (s_rbuf s) = 22 -> 0 <= s_rlen s -> want <= 22 -> sinv s ->
+  (forall rb n, lenZ rb = 22 -> 0 <= n -> s_rlen s + n = want ->
+     (forall i, 0 <= i < s_rlen s -> mread rb i = mread (s_rbuf s) i) -> bok sP (kd (more s rb n))) ->
+  (forall rb n, lenZ rb = 22 -> 0 <= n -> s_rlen s + n < want ->
+     (forall i, 0 <= i < s_rlen s -> mread rb i = mread (s_rbuf s) i) -> sinv (more s rb n)) ->
+  forall d, lenZ d <= want - s_rlen s -> bok sP (fill_k s want kd d).
+Proof.
+  intros LB L0 W22 I KD KN d BD. unfold fill_k. pose proof (lenZ_nonneg d) as Ld.
+  destruct (lenZ d =? 0); [constructor; intros _; exact I|].
+  destruct (mwrite (s_rbuf s) (s_rlen s) d) as [rb|] eqn:MW; [|rewrite mwrite_some in MW by lia; discriminate MW].
+  assert (LR : lenZ rb = 22) by (rewrite (mwrite_len _ _ _ _ MW); exact LB).
+  assert (MR : forall i, 0 <= i < s_rlen s -> mread rb i = mread (s_rbuf s) i).
+  { intros i Hi. destruct (mwrite_inv _ _ _ _ MW). rewrite (mread_mwrite _ _ _ _ i MW) by lia.
+    destruct (Z.leb_spec (s_rlen s) i); [lia|]. reflexivity. }
+  cbn [s_rlen upd]. fold (more s rb (lenZ d)).
+  destruct (Z.leb_spec want (s_rlen s + lenZ d)).
+  - apply KD; auto. lia.
+  - constructor. intros _. apply KN; auto.
+Qed.
+
+Lemma bl_rd s want kd : 0 <= s_rlen s -> want <= 22 -> s_rlen s < want ->
+  (forall d, lenZ d <= want - s_rlen s -> bok sP (fill_k s want kd d)) -> bok sP (rd s want kd).
+Proof.
+  intros L0 W LT H. unfold rd. rewrite w64s by (unfold W64; lia). constructor. intros d Hd. apply H. lia.
+Qed.
+
+Lemma lv_error s : bok sP (socks_error s).
+Proof. constructor. intros H; lia. Qed.
+
+Lemma sinv_upd0 s st q rb : lenZ rb = 22 -> s_base s = true -> sinv (upd s st q rb 0).
+Proof.
+  intros LR B. unfold sinv, upd; cbn [s_rbuf s_rlen s_state s_base]. repeat split; auto; try lia.
+Qed.
+
+Lemma lv_connect s : lenZ (s_rbuf s) = 22 -> s_rlen s = 0 -> s_base s = true -> bok sP (send_connect s).
+Proof.
+  intros LB R0 B. unfold send_connect. apply bk_dn. apply bk_done. intros _. rewrite R0. apply sinv_upd0; auto.
+Qed.
+Lemma lv_tail_done s : lenZ (s_rbuf s) = 22 -> s_base s = true -> bok sP (socks_tail_done s).
+Proof.
+  intros LB B. unfold socks_tail_done. apply flush_queue_bok. constructor. intros _. apply sinv_upd0; auto.
+Qed.
+
+(* the code that runs once the 4-byte head is there *)
+Lemma lv_head_done s : lenZ (s_rbuf s) = 22 -> s_base s = true -> s_state s = SK_CONNECT ->
+  (forall w, head_want (s_rbuf s) = Some w -> 4 <= s_rlen s < w \/ s_rlen s = 4) -> bok sP (socks_head_done s).
+Proof.
+  intros LB B ST HR. unfold socks_head_done, at_.
+  destruct (mread_some (s_rbuf s) 0 ltac:(lia)) as [d0 M0]. destruct (mread_some (s_rbuf s) 1 ltac:(lia)) as [d1 M1].
+  destruct (mread_some (s_rbuf s) 2 ltac:(lia)) as [d2 M2]. destruct (mread_some (s_rbuf s) 3 ltac:(lia)) as [d3 M3].
+  rewrite M0, M1, M2, M3.
+  destruct (head_class d0 d1 d2 d3) as [w|] eqn:HC; [|apply lv_error].
+  assert (HW : head_want (s_rbuf s) = Some w) by (unfold head_want; rewrite M0, M1, M2, M3; exact HC).
+  assert (W : w = 10 \/ w = 22) by (eapply head_class_cases; eauto).
+  assert (LT : 4 <= s_rlen s < w) by (destruct (HR w HW); lia).
+  rewrite (fill_rd s w) by (auto; lia). apply bl_rd; try lia.
+  assert (I : sinv s).
+  { unfold sinv. repeat split; auto; try lia.
+    - intros [X|X]; rewrite ST in X; discriminate X.
+    - intros _. right. exists w. auto. }
+  apply lv_fill_k; auto; try lia.
+  - intros rb n LR N0 WN MR. apply lv_tail_done; auto.
+  - intros rb n LR N0 WN MR. unfold sinv, more, upd; cbn [s_rbuf s_rlen s_state s_base].
+    repeat split; auto; try lia.
+    + intros [X|X]; rewrite ST in X; discriminate X.
+    + intros _. right. exists w. split; [|lia]. rewrite <- HW. unfold head_want. rewrite !MR by lia. reflexivity.
+Qed.
+
+Lemma socks_leaves s : sinv s -> bok sP (socks_body s).
+Proof.
+  intros I. pose proof I as (LB & L0 & CB & IA & CT).
+  unfold socks_body. cbv zeta.
+  destruct (Z.eqb_spec (s_state s) SK_CONNECTED) as [SC|SC].
+  { destruct (s_base s); [|constructor; intros H; lia]. unfold passthrough. constructor. intros d _.
+    destruct (_ =? 0); repeat (apply bk_up || apply bk_done); intros _; exact I. }
+  destruct (Z.eqb_spec (s_state s) SK_INIT) as [S0|S0].
+  { destruct CB as [B|X]; [|rewrite S0 in X; discriminate X]. specialize (IA (or_introl S0)).
+    rewrite fill_rd by (auto; lia). apply bl_rd; try lia. apply lv_fill_k; auto; try lia.
+    - intros rb n LR N0 WN MR. unfold socks_init_done, at_. cbv zeta. cbn [s_rbuf more upd].
+      destruct (mread_some rb 0 ltac:(lia)) as [d0 ->]. destruct (mread_some rb 1 ltac:(lia)) as [d1 ->].
+      destruct (_ =? 5); [|apply lv_error]. destruct (_ =? 2).
+      + destruct (has_auth _); [|apply lv_error]. destruct (255 <? _); [apply lv_error|]. destruct (255 <? _); [apply lv_error|].
+        apply bk_dn. apply bk_done. intros _. apply sinv_upd0; auto.
+      + destruct (_ =? 0); [|apply lv_error]. apply lv_connect; auto.
+    - intros rb n LR N0 WN MR. unfold sinv, more, upd; cbn [s_rbuf s_rlen s_state s_base].
+      repeat split; auto; try lia; try (intros X; rewrite S0 in X; discriminate X). }
+  destruct (Z.eqb_spec (s_state s) SK_AUTH) as [S1|S1].
+  { destruct CB as [B|X]; [|rewrite S1 in X; discriminate X]. specialize (IA (or_intror S1)).
+    rewrite fill_rd by (auto; lia). apply bl_rd; try lia. apply lv_fill_k; auto; try lia.
+    - intros rb n LR N0 WN MR. unfold socks_auth_done, at_. cbv zeta. cbn [s_rbuf more upd].
+      destruct (mread_some rb 0 ltac:(lia)) as [d0 ->]. destruct (mread_some rb 1 ltac:(lia)) as [d1 ->].
+      destruct (_ && _); [|apply lv_error]. apply lv_connect; auto.
+    - intros rb n LR N0 WN MR. unfold sinv, more, upd; cbn [s_rbuf s_rlen s_state s_base].
+      repeat split; auto; try lia; try (intros X; rewrite S1 in X; discriminate X). }
+  destruct (Z.eqb_spec (s_state s) SK_CONNECT) as [S2|S2]; [|apply lv_error].
+  destruct CB as [B|X]; [|rewrite S2 in X; discriminate X].
+  destruct (CT S2) as [L4|(w & HW & LW)].
+  - rewrite fill_rd by (auto; lia). apply bl_rd; try lia. apply lv_fill_k; auto; try lia.
+    + intros rb n LR N0 WN MR. apply lv_head_done; auto; intros w HW; right; cbn [s_rlen more upd]; lia.
+    + intros rb n LR N0 WN MR. unfold sinv, more, upd; cbn [s_rbuf s_rlen s_state s_base].
+      repeat split; auto; try lia; try (intros [X|X]; rewrite S2 in X; discriminate X).
+  - unfold fill. change (22 <? 4) with false. cbv iota. destruct (Z.leb_spec 4 (s_rlen s)); [|lia].
+    apply lv_head_done; auto. intros w' HW'. left. rewrite HW in HW'. inversion HW'; subst. exact LW.
+Qed.
+
+Lemma socks_inv_step s kb s1 r k e : sinv s -> exec (socks_body s) kb = (Some (s1, r), k, e) -> 0 <= r -> sinv s1.
+Proof. intros I E R. destruct (bok_exec sP _ (socks_leaves s I) _ _ _ _ E) as (s' & r' & X & Y). inversion X; subst. auto. Qed.
+
+Lemma sinv_init u p a : sinv (socks_init u p a).
+Proof.
+  unfold sinv, socks_init; cbn [s_rbuf s_rlen s_state s_base]. rewrite lenZ_repZ.
+  repeat split; auto; try lia; try (intros X; discriminate X).
+Qed.
+
+(** every read of the layer is resumable, no defective path exists: every run is clean *)
+Lemma socks_lax s : lax (socks_body s).
+Proof.
+  assert (ER : forall x, lax (socks_error x)) by (intros; constructor).
+  assert (SC : forall x, lax (send_connect x)) by (intros; repeat constructor).
+  assert (TD : forall x, lax (socks_tail_done x)) by (intros; unfold socks_tail_done; apply flush_queue_lax; constructor).
+  assert (FK : forall x want kd, (forall y, lax (kd y)) -> forall d, lax (fill_k x want kd d)).
+  { intros. unfold fill_k. destruct (_ =? 0); [constructor|]. destruct (mwrite _ _ _); [|constructor]. destruct (_ <=? _); [auto | constructor]. }
+  assert (FL : forall x want kd kneg, (forall y, lax (kd y)) -> lax kneg -> lax (fill x want kd kneg)).
+  { intros. unfold fill. destruct (22 <? want); [constructor|]. destruct (_ <=? _); auto. destruct (s_base x); auto.
+    constructor. apply FK; auto. }
+  assert (ID : forall x, lax (socks_init_done x)).
+  { intros. unfold socks_init_done, at_. cbv zeta. destruct (mread _ 0); [|constructor]. destruct (mread _ 1); [|constructor].
+    destruct (_ =? 5); auto. destruct (_ =? 2).
+    - destruct (has_auth _); auto. destruct (255 <? _); auto. destruct (255 <? _); auto. repeat constructor.
+    - destruct (_ =? 0); auto. }
+  assert (AD : forall x, lax (socks_auth_done x)).
+  { intros. unfold socks_auth_done, at_. cbv zeta. destruct (mread _ 0); [|constructor]. destruct (mread _ 1); [|constructor].
+    destruct (_ && _); auto. }
+  assert (HD : forall x, lax (socks_head_done x)).
+  { intros. unfold socks_head_done, at_. destruct (mread _ 0); [|constructor]. destruct (mread _ 1); [|constructor].
+    destruct (mread _ 2); [|constructor]. destruct (mread _ 3); [|constructor]. destruct (head_class _ _ _ _); auto. }
+  unfold socks_body. cbv zeta. destruct (_ =? SK_CONNECTED).
+  { destruct (s_base s); [apply passthrough_lax | constructor]. }
+  destruct (_ =? SK_INIT); [apply FL; auto; constructor|].
+  destruct (_ =? SK_AUTH); [apply FL; auto; constructor|].
+  destruct (_ =? SK_CONNECT); [apply FL; auto; constructor|]. auto.
+Qed.
+
+Theorem socks_seg_independent s cs : sinv s ->
+  weq (fst (run socks_body (alive s) cs)) (fst (feed socks_body (alive s) (concat cs))) /\
+  vis vis_str (snd (run socks_body (alive s) cs)) = vis vis_str (snd (feed socks_body (alive s) (concat cs))).
+Proof.
+  intros I.
+  apply (run_seg_independent socks_body vis_str sinv socks_inv_step socks_resume cs (alive s) I).
+  apply run_clean. intros s0 kb o k e E. exact (lax_clean _ (socks_lax s0) _ _ _ _ E).
+Qed.
+
+Theorem socks_tunnel_transparent s cs : s_state s = SK_CONNECTED -> s_base s = true ->
+  fst (run socks_body (alive s) cs) = alive s /\
+  vis vis_str (snd (run socks_body (alive s) cs)) = map OByte (concat cs).
 Proof.
   intros H B. apply transparent_run. apply passthrough_transparent. unfold socks_body. rewrite H, B. reflexivity.
 Qed.
@@ -65,69 +471,39 @@ Lemma socks_send_transparent s rel bufs : s_state s = SK_CONNECTED -> s_base s =
 Proof. intros H B. unfold socks_send. rewrite H, B. reflexivity. Qed.
 
 (** ** no Fault, no spinning *)
-Lemma read_into_safe G cap n k : 0 <= n <= cap ->
-  (forall d data, lenZ d <= n -> lenZ data = cap -> safe (k d data)) -> safe (read_into G cap n k).
-Proof.
-  intros R H. unfold read_into. constructor. intros d Ld. pose proof (lenZ_nonneg d).
-  assert (LR : lenZ (repZ G (Z.to_nat cap)) = cap) by (rewrite lenZ_repZ; lia).
-  rewrite mwrite_some by lia. apply H; [lia|].
-  rewrite !lenZ_app, lenZ_takeZ, lenZ_dropZ. lia.
-Qed.
-Lemma at_safe data i k : 0 <= i < lenZ data -> (forall v, safe (k v)) -> safe (at_ data i k).
-Proof. intros R H. unfold at_. destruct (mread_some data i R) as [v M]. rewrite M. apply H. Qed.
-
-Ltac walks := repeat first
-  [ apply flush_queue_safe
-  | match goal with
-    | |- safe (if ?b then _ else _) => destruct b
-    | |- safe (let _ := _ in _) => cbv zeta
-    | |- safe (socks_error _) => unfold socks_error
-    | |- safe (send_connect _) => unfold send_connect
-    | |- safe (at_ _ _ _) => apply at_safe; [lia|intro]
-    end
-  | constructor ].
-
-Lemma socks_safe G s : safe (socks_body G s).
-Proof.
-  unfold socks_body.
-  destruct (s_state s =? SK_CONNECTED).
-  { destruct (s_base s); [|constructor]. unfold passthrough. constructor. intros d _. destruct (lenZ d =? 0); repeat constructor. }
-  destruct (s_state s =? SK_INIT).
-  { destruct (s_base s); [|constructor]. apply read_into_safe; [lia|]. intros d data Ld L2. walks. }
-  destruct (s_state s =? SK_AUTH).
-  { destruct (s_base s); [|constructor]. apply read_into_safe; [lia|]. intros d data Ld L2. walks. }
-  destruct (s_state s =? SK_CONNECT); [|walks].
-  destruct (s_base s); [|constructor]. apply read_into_safe; [lia|]. intros d data Ld L2. walks.
-  all: intros t Lt; pose proof (lenZ_nonneg t); rewrite mwrite_some by lia; walks.
-Qed.
-
-Lemma socks_call_ok G s kb o k e : sinv s -> kb <> [] -> exec (socks_body G s) kb = (o, k, e) -> Forall (fun _ => True) e ->
+Lemma socks_call_ok s kb o k e : sinv s -> kb <> [] -> exec (socks_body s) kb = (o, k, e) -> Forall (fun _ => True) e ->
   match o with None => False | Some (s1, r) => 0 <= r -> sinv s1 /\ lenZ k < lenZ kb end.
 Proof.
-  intros I N E _. destruct o as [[s1 r]|].
-  2:{ exact (safe_exec _ (socks_safe G s) _ _ _ E). }
-  intros R. split; [eapply socks_inv_step; eauto|].
-  pose proof (lenZ_pos kb N) as Lk.
-  unfold socks_body in E.
-  destruct (Z.eqb_spec (s_state s) SK_CONNECTED) as [C|C].
-  { rewrite (I C) in E. rewrite exec_passthrough in E by auto. inversion E; subst. rewrite lenZ_dropZ. unfold UPCAP. lia. }
-  destruct (s_state s =? SK_INIT).
-  { destruct (s_base s); [|simpl in E; inversion E; subst; lia]. unfold read_into in E. eapply read_progress; [| |exact E]; auto; lia. }
-  destruct (s_state s =? SK_AUTH).
-  { destruct (s_base s); [|simpl in E; inversion E; subst; lia]. unfold read_into in E. eapply read_progress; [| |exact E]; auto; lia. }
-  destruct (s_state s =? SK_CONNECT).
-  { destruct (s_base s); [|simpl in E; inversion E; subst; lia]. unfold read_into in E. eapply read_progress; [| |exact E]; auto; lia. }
-  unfold socks_error in E. simpl in E. inversion E; subst; lia.
+  intros I N E _. destruct (bok_exec sP _ (socks_leaves s I) _ _ _ _ E) as (s1 & r & -> & P).
+  intros R. split; [exact (P R)|].
+  pose proof I as (LB & L0 & CB & IA & CT). pose proof (lenZ_pos kb N) as Lk.
+  destruct (Z.eq_dec (s_state s) SK_CONNECTED) as [SC|SC].
+  { unfold socks_body in E. rewrite SC in E. simpl in E.
+    destruct CB as [B|X]; [|rewrite SC in X; discriminate X]. rewrite B in E.
+    rewrite exec_passthrough in E by auto. inversion E; subst. rewrite lenZ_dropZ. unfold UPCAP. lia. }
+  destruct (s_base s) eqn:B.
+  2:{ (* error state *)
+      destruct CB as [X|X]; [discriminate X|]. unfold socks_body in E. rewrite X in E. simpl in E. inversion E; subst. lia. }
+  assert (RDP : forall want kd, want <= 22 -> s_rlen s < want -> exec (rd s want kd) kb = (Some (s1, r), k, e) -> lenZ k < lenZ kb).
+  { intros want kd W LT EX. unfold rd in EX. eapply read_progress; [| |exact EX]; auto. rewrite w64s by (unfold W64; lia). lia. }
+  destruct (Z.eq_dec (s_state s) SK_INIT) as [S0|S0].
+  { specialize (IA (or_introl S0)). rewrite body_init in E by auto. eapply RDP; [| |exact E]; lia. }
+  destruct (Z.eq_dec (s_state s) SK_AUTH) as [S1|S1].
+  { specialize (IA (or_intror S1)). rewrite body_auth in E by auto. eapply RDP; [| |exact E]; lia. }
+  destruct (Z.eq_dec (s_state s) SK_CONNECT) as [S2|S2].
+  - destruct (CT S2) as [L4|(w & HW & LW)].
+    + rewrite body_head in E by auto. eapply RDP; [| |exact E]; lia.
+    + rewrite (body_tail s w) in E by auto. destruct (head_want_cases _ _ HW); eapply RDP; [| |exact E| | |exact E]; lia.
+  - unfold socks_body in E. destruct (Z.eqb_spec (s_state s) SK_CONNECTED); [contradiction|].
+    destruct (Z.eqb_spec (s_state s) SK_INIT); [contradiction|]. destruct (Z.eqb_spec (s_state s) SK_AUTH); [contradiction|].
+    destruct (Z.eqb_spec (s_state s) SK_CONNECT); [contradiction|]. simpl in E. inversion E; subst. lia.
 Qed.
 
-Theorem socks_no_fault G s cs : sinv s ->
-  ~ In EFault (snd (run (socks_body G) (alive s) cs)) /\ ~ In ELive (snd (run (socks_body G) (alive s) cs)).
+Theorem socks_no_fault s cs : sinv s ->
+  ~ In EFault (snd (run socks_body (alive s) cs)) /\ ~ In ELive (snd (run socks_body (alive s) cs)).
 Proof.
   intros I.
-  destruct (run_ok (socks_body G) sinv (fun _ => True) (socks_call_ok G) cs (alive s)
+  destruct (run_ok socks_body sinv (fun _ => True) socks_call_ok cs (alive s)
               (fun _ => I) ltac:(discriminate) ltac:(discriminate)) as (A & B & _); auto.
   apply Forall_forall. auto.
 Qed.
-
-Lemma sinv_init u p a : sinv (socks_init u p a).
-Proof. unfold sinv, socks_init; simpl. discriminate. Qed.
